@@ -32,5 +32,5 @@ CONSTANTS
 INVARIANTS TypeOK BurstExact JoinsOrdered BurstDistinctPeers PrefixExact PrefixNamesSharers EvidenceNamesPresentOnly
            IdenticalHistoriesSimilar SimilarityBounded AsymSound AnalysisIdempotent GroupsDisjoint AnalyzeCovers GroupsOnlyByAnalysis
            SuspectedIffMember RiskMonotoneUntilClear OverallIsSuspectedFraction GroupCountBounded ClearEmpties CleanupOnlyOld
-           RecordsAreHistory NoPanic
+           RecordsAreHistory RecordsWithinWindow NoPanic
 CHECK_DEADLOCK FALSE
